@@ -160,7 +160,16 @@ func c24(r *core.Run) {
 	// R6 inside Storage.commit no fallible metering call can run after a register-writing call
 	if cf := mustFn(r, "R6.meterorder", "runtime", "Storage", "commit"); cf != nil {
 		writes := core.CallsTo(cf, false, anyOf(methodOf("commit", mod+"/runtime.AccountStorage"), slabCommit))
-		meters := core.CallsTo(cf, false, anyOf(funcOf(mod+"/common", "UseComputation"), funcOf(mod+"/common", "UseMemory")))
+		isMeter := anyOf(funcOf(mod+"/common", "UseComputation"), funcOf(mod+"/common", "UseMemory"))
+		var meters []ssa.CallInstruction
+		for _, c := range core.Calls(cf, false) {
+			// a metering call, or a call of a helper that meters (depth 2)
+			if core.CallReaches(c, func(cc ssa.CallInstruction) bool { o := core.Callee(cc); return o != nil && isMeter(o) }, 2) {
+				if o := core.Callee(c); o != nil && (isMeter(o) || (o.Pkg() != nil && o.Pkg().Path() == mod+"/runtime" && !methodOf("commit", mod+"/runtime.AccountStorage")(o) && !methodOf("commitContractUpdates", mod+"/runtime.Storage")(o))) {
+					meters = append(meters, c)
+				}
+			}
+		}
 		for _, wr := range writes {
 			late := ""
 			for _, m := range meters {
